@@ -13,6 +13,17 @@ NOTE = ("Trusted base: clang 14 front end + CFG builder on the flags of the comp
 
 CLAIMS = {
     # pid: (technique, level text, design_ref)
+    "C13": ("must-pass-through / dominance on do_source_file's CFG (backup < open(tmp) < write < close < rename, rename guarded by clean close) + who-may-call for rename/unlink/write-mode opens",
+            "For every path of do_source_file(): only the suffixed temp name is opened for writing, a backup (unless no_backup) and its "
+            "failure exit precede it, fclose precedes rename with no write in between, the rename is control-dependent on a clean "
+            "ferror/fclose, and no other function renames/unlinks or opens files for writing. This ordering is what makes every "
+            "crash or fault point leave either the complete original or the complete new file; it holds for all inputs and fault "
+            "points, which no fault-injection sample can enumerate. Kernel atomicity of rename(2) is assumed.", "DESIGN.md section 4 C13"),
+    "C14": ("must-pass-through on do_source_file (md5 only after rename/unlink, with a checked flag-latch lemma) + guard analysis of backup_copy_file + writer/reader format table agreement",
+            "Every path to backup_create_md5_file passes the install of the formatted file; after an install with a backup the md5 is "
+            "always recorded; backup_copy_file writes iff the recorded md5 differs from the md5 of exactly the bytes read and nothing "
+            "else can skip it; writer and reader agree on 32 lower-case hex digits of dig[0..15]. That is the protocol of backup.h "
+            "decided for all histories; MD5 arithmetic itself is not examined.", "DESIGN.md section 4 C14"),
     "C19": ("CFG dataflow (last-logged-rule x option provenance) over all do_space returns + who-may-call + switch-arm effect check",
             "Every return of do_space() (359) is checked: the option named by the last log_rule on each path is the option whose "
             "value (or a guard on it) decides the return; do_space is reachable only through ensure_force_space; the appliers' "
